@@ -10,7 +10,8 @@ import (
 
 type TmplData struct {
 	*shoot.TmplDataBase
-	NameList []string
+	NameList []string // one name per value, sorted by value (the first declared name of each value)
+	AllNames []string // every constant, sorted by value
 	Enums    string
 	Max      string
 	Bitwise  bool
